@@ -268,15 +268,18 @@ fn parse_event(case: &Value, text: &str, parsed: &Outcome<Components>, events: &
             })
             .collect(),
     };
+    // cases of the free-text family: the comments are judged as atoms (cm_atoms), not as strings
+    let text_family = case.get("atoms").is_some();
+    let declared: Vec<AbsComp> = declared.into_iter().map(|mut c| { if text_family { c.cm = String::new(); } c }).collect();
     let steps: Vec<Value> = events
         .iter()
         .map(|e| {
             json!({"ev": e["ev"], "carrier": e.get("carrier").cloned().unwrap_or(json!("-")),
                    "id": e.get("id").cloned().unwrap_or(json!(0)),
-                   "data": comps_json(&abs_from_hook(&e["data"]), q)})
+                   "data": comps_json(&abs_from_hook(&e["data"]).into_iter().map(|mut x| { if text_family && !x.cm.starts_with('@') { x.cm = String::new(); } x }).collect::<Vec<_>>(), q)})
         })
         .collect();
-    let mut ev = json!({"ev": "Parse", "case": case["case"], "tag": "parse", "q": q,
+    let mut ev = json!({"ev": "Parse", "case": case["case"], "tag": "parse", "q": q, "atoms": case.get("atoms").cloned().unwrap_or(json!("-")),
                         "N": declared.first().map(|c| c.v.len()).unwrap_or(0),
                         "input": Value::Array(declared.iter().map(|c| {
                             // the parser loads auxiliaries with the service NEPB
@@ -296,7 +299,20 @@ fn parse_event(case: &Value, text: &str, parsed: &Outcome<Components>, events: &
             };
             let all = flat::abs_of_components(c);
             let needs: Vec<Value> = all.iter().filter(|c| c.kind == "NEED").map(|c| c.to_json(q)).collect();
-            json!({"ok": true, "data": comps_json(&all, q), "needs": needs, "renorm": re})
+            let blank = |v: Vec<AbsComp>| -> Vec<AbsComp> { v.into_iter().map(|mut x| { if text_family && !x.cm.starts_with('@') { x.cm = String::new(); } x }).collect() };
+            let all = blank(all);
+            let mut o = json!({"ok": true, "data": comps_json(&all, q), "needs": needs, "renorm": re});
+            if text_family {
+                if let Outcome::Ok(c2) = guarded(|| c.clone().normalize()) {
+                    o["renorm"] = json!({"ok": true, "data": comps_json(&blank(flat::abs_of_components(&c2)), q)});
+                }
+                // free text of the case: the comments and metadata values as they were read, cut into the atoms
+                // of the text alphabet (spec/Output.tla TextAtoms) so that TLC can compare them with what was declared
+                o["cm_atoms"] = Value::Array(c.data.iter().filter(|e| !flat::is_generated_comment(e.comment()))
+                    .map(|e| json!(lex::text_atoms(e.comment()))).collect());
+                o["meta_atoms"] = Value::Array(c.meta.iter().map(|m| json!([m.key, lex::text_atoms(&m.value)])).collect());
+            }
+            o
         }
         Outcome::Err(k, m) => fail("parse", k, m),
         Outcome::Panic(m) => fail("parse", "Panic", m),
